@@ -245,6 +245,310 @@ fn c02_pb_take_action() {
 }
 
 // ===========================================================================
+// Play-phase states for the obligations ("lean": the only heap objects are the per-turn
+// board record, whose length IS the step counter, and an empty history list; everything
+// else is symbolic).
+// ===========================================================================
+use crate::zobrist::verif::{raw, zob};
+
+pub fn any_status() -> PushPullState {
+    let k: u8 = kani::any();
+    let s = Square::from_index(any_sq());
+    let p = any_piece();
+    match k {
+        0 => PushPullState::None,
+        1 => PushPullState::PossiblePull(s, p),
+        _ => PushPullState::MustCompletePush(s, p),
+    }
+}
+pub fn pp_of(s: PushPullState) -> Pp {
+    match s {
+        PushPullState::None => Pp::None,
+        PushPullState::PossiblePull(sq, p) => Pp::Pull(sq.index() as u8, p),
+        PushPullState::MustCompletePush(sq, p) => Pp::Push(sq.index() as u8, p),
+    }
+}
+/// the part of the reachable-state invariant that concerns the push/pull status (DESIGN 5.3):
+/// it is established by next_push_pull_state (obligation c12_*) and assumed by the generators
+pub fn wf_status(pb: &PieceBoardState, side: bool, step: usize, pp: Pp) -> bool {
+    match pp {
+        Pp::None => true,
+        Pp::Pull(s, p) => step >= 1 && at(pb, s).is_none() && p != Piece::Rabbit,
+        Pp::Push(s, p) => {
+            step >= 1 && at(pb, s).is_none() && p != Piece::Elephant && has_unfrozen_stronger_nbr(pb, side, s, p)
+        }
+    }
+}
+pub fn any_prev_board() -> PieceBoard {
+    PieceBoard(any_board_raw())
+}
+/// previous boards of the turn: a Vec whose (concrete per path) length is the step counter
+pub fn prev_boards(step: usize) -> Vec<PieceBoard> {
+    match step {
+        0 => Vec::new(),
+        1 => vec![any_prev_board()],
+        2 => vec![any_prev_board(), any_prev_board()],
+        _ => vec![any_prev_board(), any_prev_board(), any_prev_board()],
+    }
+}
+pub fn play_state_h(pb: &PieceBoardState, side: bool, step: usize, st: PushPullState, trapped: bool, hash: u64, init: u64, mn: usize) -> GameState {
+    let pp = PlayPhase::new(zob(init), List::new(), prev_boards(step), st, trapped);
+    GameState::new(side, mn, Phase::PlayPhase(pp), PieceBoard(pb.clone()), zob(hash))
+}
+pub fn play_state(pb: &PieceBoardState, side: bool, step: usize, st: PushPullState) -> GameState {
+    play_state_h(pb, side, step, st, kani::any(), kani::any(), kani::any(), 2)
+}
+
+// ===========================================================================
+// The seam (DESIGN 4.3).  map_bit_board_to_squares is the only place where a bit set becomes
+// a list; its contract (ascending, exactly the set bits) is proved by Verus on the real loop
+// (verus/seam.spec).  In obligations about its callers it is replaced by a recorder: the
+// argument goes to a ghost log, the result is the one-element list [REP].
+// ===========================================================================
+pub static mut SEAM_LOG: [u64; 4] = [0; 4];
+pub static mut SEAM_N: usize = 0;
+pub static mut SEAM_REP: u8 = 0;
+pub fn seam_rec(b: u64) -> Vec<Square> {
+    unsafe {
+        if SEAM_N < 4 {
+            SEAM_LOG[SEAM_N] = b;
+        }
+        SEAM_N += 1;
+        vec![Square::from_index(SEAM_REP)]
+    }
+}
+pub fn seam_reset() -> u8 {
+    let rep = any_sq();
+    unsafe {
+        SEAM_N = 0;
+        SEAM_REP = rep;
+        SEAM_LOG = [0; 4];
+    }
+    rep
+}
+/// what the generator obligations assert about the recorded calls and the produced list:
+///   v.len() == number of seam calls <= 4; call k was made with a non-empty mask; v[k] == Move(REP, d_k)
+///   with d_0 < d_1 < .. in Direction::ALL order; and for the symbolic (i,d):
+///   (exists k: d_k == d && bit(mask_k, i)) == spec(i,d)
+pub fn seam_list_ok(v: &[Action], base: usize, rep: u8) -> bool {
+    let n = unsafe { SEAM_N };
+    if n > 4 || v.len() != base + n {
+        return false;
+    }
+    let mut ok = true;
+    let mut last: i8 = -1;
+    let mut k = 0;
+    while k < 4 {
+        if k < n {
+            match v[base + k] {
+                Action::Move(s, d) => {
+                    ok = ok && s.index() as u8 == rep && (dir_ord(d) as i8) > last && unsafe { SEAM_LOG[k] } != 0;
+                    last = dir_ord(d) as i8;
+                }
+                _ => ok = false,
+            }
+        }
+        k += 1;
+    }
+    ok
+}
+pub fn seam_offers(v: &[Action], base: usize, i: u8, d: Direction) -> bool {
+    let n = unsafe { SEAM_N };
+    let mut r = false;
+    let mut k = 0;
+    while k < 4 {
+        if k < n && base + k < v.len() {
+            if let Action::Move(_, dk) = v[base + k] {
+                if dk == d && bit(unsafe { SEAM_LOG[k] }, i) {
+                    r = true;
+                }
+            }
+        }
+        k += 1;
+    }
+    r
+}
+
+// ===========================================================================
+// C01 generators (layer 3)
+// ===========================================================================
+// @obl props=C01,C07,C19 tier=quick kind=harness-contract mem=4 est=60
+// @fns GameState::extend_with_valid_curr_player_piece_moves GameState::curr_player_non_frozen_pieces can_move_in_direction GameState::invalid_rabbit_moves
+// @clause requires board_wf. ensures (seam abstracted, A1): the seam is called once per direction with a non-empty mask, in Up,Right,Down,Left order, one Move(REP,d) appended per call, nothing else; forall (i,d): bit(mask_d,i) <=> simple_step(pb,side,i,d) = unfrozen piece of the mover on i, nbr(i,d) empty, not a rabbit moving backward
+#[kani::proof]
+#[kani::unwind(6)]
+#[kani::stub(crate::action::map_bit_board_to_squares, seam_rec)]
+fn c01_gen_steps() {
+    let side: bool = kani::any();
+    let pb = any_wf_board();
+    let gs = lean_state(side);
+    let i = any_sq();
+    let d = any_direction();
+    let rep = seam_reset();
+    kani::cover!(simple_step(&pb, side, i, d));
+    let mut v: Vec<Action> = Vec::new();
+    gs.extend_with_valid_curr_player_piece_moves(&mut v, &pb);
+    assert!(seam_list_ok(&v, 0, rep), "C01: one Move(REP,d) per non-empty direction mask, directions ascending");
+    assert!(seam_offers(&v, 0, i, d) == simple_step(&pb, side, i, d), "C01: offered single steps == legal single steps");
+}
+// @obl props=C01,C07,C19 tier=quick kind=harness-contract mem=5 est=90
+// @fns GameState::extend_with_push_piece_actions GameState::curr_player_non_frozen_pieces GameState::threatened_pieces can_move_in_direction PushPullState::can_push
+// @clause requires board_wf, wf_status, step in 0..3 (all four, symbolic). ensures (seam abstracted): nothing is produced when a push is pending or step == 3; otherwise forall (i,d): bit(mask_d,i) <=> push_start = enemy piece on i, nbr(i,d) empty, an unfrozen strictly stronger piece of the mover adjacent to i
+#[kani::proof]
+#[kani::unwind(6)]
+#[kani::stub(crate::action::map_bit_board_to_squares, seam_rec)]
+fn c01_gen_push() {
+    let side: bool = kani::any();
+    let pb = any_wf_board();
+    let step: usize = kani::any();
+    kani::assume(step <= 3);
+    let st = any_status();
+    kani::assume(wf_status(&pb, side, step, pp_of(st)));
+    let gs = play_state(&pb, side, step, st);
+    let i = any_sq();
+    let d = any_direction();
+    let rep = seam_reset();
+    kani::cover!(step == 0 && push_start(&pb, side, step, i, d));
+    kani::cover!(step == 3);
+    kani::cover!(matches!(st, PushPullState::MustCompletePush(_, _)));
+    let mut v: Vec<Action> = Vec::new();
+    gs.extend_with_push_piece_actions(&mut v, &pb);
+    assert!(seam_list_ok(&v, 0, rep), "C01: one Move(REP,d) per non-empty push mask, directions ascending");
+    let pending = matches!(st, PushPullState::MustCompletePush(_, _));
+    assert!(seam_offers(&v, 0, i, d) == (!pending && push_start(&pb, side, step, i, d)), "C01: offered push starts == legal push starts");
+}
+
+/// membership of Move(i,d) in a short list, by unrolled index comparison
+pub fn has_move_in(v: &[Action], i: u8, d: Direction) -> bool {
+    let mut r = false;
+    let mut k = 0;
+    while k < 4 {
+        if k < v.len() {
+            if let Action::Move(s, dk) = v[k] {
+                if s.index() as u8 == i && dk == d {
+                    r = true;
+                }
+            }
+        }
+        k += 1;
+    }
+    r
+}
+pub fn count_move_in(v: &[Action], i: u8, d: Direction) -> u8 {
+    let mut r = 0;
+    let mut k = 0;
+    while k < 4 {
+        if k < v.len() {
+            if let Action::Move(s, dk) = v[k] {
+                if s.index() as u8 == i && dk == d {
+                    r += 1;
+                }
+            }
+        }
+        k += 1;
+    }
+    r
+}
+pub fn all_moves(v: &[Action]) -> bool {
+    let mut r = true;
+    let mut k = 0;
+    while k < 4 {
+        if k < v.len() {
+            r = r && matches!(v[k], Action::Move(_, _));
+        }
+        k += 1;
+    }
+    r
+}
+
+// @obl props=C01,C07,C19 tier=quick kind=harness-contract mem=4 est=60
+// @fns GameState::extend_with_pull_piece_actions GameState::lesser_pieces GameState::opponent_piece_mask shift_pieces_in_direction shift_pieces_in_opp_direction Square::from_bit_board PushPullState::as_possible_pull
+// @clause requires board_wf, wf_status. ensures (real Vec, <= 4 entries): started from an empty list the result contains Move(i,d) <=> status is PossiblePull(psq,pt) and pull_complete(psq,pt,i,d) = strictly weaker enemy on i steps into the vacated square; no duplicates; only Moves; at most 4
+#[kani::proof]
+#[kani::unwind(6)]
+fn c01_gen_pull() {
+    let side: bool = kani::any();
+    let pb = any_wf_board();
+    let step: usize = 1; // the function never reads the step counter (only the status), so one concrete length of the per-turn record suffices
+    let st = any_status();
+    kani::assume(wf_status(&pb, side, step, pp_of(st)));
+    let gs = play_state(&pb, side, step, st);
+    let i = any_sq();
+    let d = any_direction();
+    let spec = match pp_of(st) {
+        Pp::Pull(psq, pt) => pull_complete(&pb, side, psq, pt, i, d),
+        _ => false,
+    };
+    kani::cover!(spec);
+    let mut v: Vec<Action> = Vec::with_capacity(8); // as in valid_actions_ (with_capacity(50)): no reallocation while appending
+    gs.extend_with_pull_piece_actions(&mut v, &pb);
+    assert!(v.len() <= 4 && all_moves(&v), "C01: at most four pull completions, all Moves");
+    assert!(has_move_in(&v, i, d) == spec, "C01: offered pull completions == legal pull completions");
+    assert!(count_move_in(&v, i, d) <= 1, "C01: no pull completion listed twice");
+}
+// @obl props=C01,C19 tier=quick kind=harness-contract mem=4 est=60
+// @fns GameState::extend_with_pull_piece_actions
+// @clause de-duplication: when the list already holds one Move (e.g. the same step offered as a push start) the pull generator appends a completion only if it is not that action, keeps the prefix, and never duplicates
+#[kani::proof]
+#[kani::unwind(7)]
+fn c01_gen_pull_dedup() {
+    let side: bool = kani::any();
+    let pb = any_wf_board();
+    let st = any_status();
+    let step: usize = 1; // not read by the function
+    kani::assume(wf_status(&pb, side, step, pp_of(st)));
+    let gs = play_state(&pb, side, step, st);
+    let (pi, pd) = (any_sq(), any_direction());
+    let i = any_sq();
+    let d = any_direction();
+    let spec = match pp_of(st) {
+        Pp::Pull(psq, pt) => pull_complete(&pb, side, psq, pt, i, d),
+        _ => false,
+    };
+    kani::cover!(spec && pi == i && pd == d);
+    kani::cover!(spec && !(pi == i && pd == d));
+    let mut v: Vec<Action> = Vec::with_capacity(8);
+    v.push(mv(pi, pd));
+    gs.extend_with_pull_piece_actions(&mut v, &pb);
+    assert!(v.len() >= 1 && v.len() <= 5 && v[0] == mv(pi, pd), "C01: prefix kept");
+    let mut cnt = 0;
+    let mut k = 0;
+    while k < 5 {
+        if k < v.len() && v[k] == mv(i, d) {
+            cnt += 1;
+        }
+        k += 1;
+    }
+    assert!((cnt >= 1) == (spec || (pi == i && pd == d)), "C01: pull completion present iff legal (or already listed)");
+    assert!(cnt <= 1, "C01: no action listed twice after de-duplication");
+}
+// @obl props=C01,C07,C12,C19 tier=quick kind=harness-contract mem=5 est=160
+// @fns GameState::must_complete_push_actions GameState::curr_player_non_frozen_pieces shift_pieces_in_opp_direction piece_type_at_bit PushPullState::unwrap_must_complete_push Square::from_bit_board
+// @clause requires board_wf, status == MustCompletePush(psq,vt) with wf_status. ensures (real Vec): result contains Move(i,d) <=> push_complete = unfrozen piece of the mover on i, strictly stronger than the pushed piece, nbr(i,d) == psq (empty); 1 <= len <= 4 (continuability); no duplicates; no panic (unwrap_must_complete_push, piece_type_at_bit on an occupied bit)
+#[kani::proof]
+#[kani::unwind(6)]
+fn c01_gen_push_completion() {
+    let side: bool = kani::any();
+    let pb = any_wf_board();
+    let st = any_status();
+    let step: usize = kani::any();
+    kani::assume(step >= 1 && step <= 3);
+    kani::assume(matches!(st, PushPullState::MustCompletePush(_, _)));
+    kani::assume(wf_status(&pb, side, step, pp_of(st)));
+    let gs = play_state(&pb, side, step, st);
+    let i = any_sq();
+    let d = any_direction();
+    let spec = match pp_of(st) {
+        Pp::Push(psq, vt) => push_complete(&pb, side, psq, vt, i, d),
+        _ => false,
+    };
+    kani::cover!(spec);
+    let v = gs.must_complete_push_actions(&pb);
+    assert!(v.len() >= 1 && v.len() <= 4 && all_moves(&v), "C01/C12: a pending push always has 1..4 completions");
+    assert!(has_move_in(&v, i, d) == spec, "C01/C12: push completions == steps of unfrozen strictly stronger friends into the vacated square");
+    assert!(count_move_in(&v, i, d) <= 1, "C01: no push completion listed twice");
+}
+// ===========================================================================
 // meta: the canary.  An `ensures` that is false on the real supported_pieces; it must FAIL.
 // If it ever passes, the pipeline is not checking anything and the whole run is UNDECIDED.
 // ===========================================================================
